@@ -48,7 +48,8 @@ def gen_cases(tier, seed):
                 sel = isos
             else:  # hostile subset + a seeded sample of the other countries, different for every preset
                 rnd = random.Random(seed * 1000 + pi)
-                sel = hostile + rnd.sample([i for i in isos if i not in hostile], 10)
+                sel = hostile + [i for i in workload.zero_rows(seed + pi, 4) if i not in hostile]
+                sel = sel + rnd.sample([i for i in isos if i not in sel], 10)
         for iso in sel:
             cases.append({"kind": "pipeline", "iso": iso, "opts": copy.deepcopy(o), "tag": name})
     for n, c in enumerate(cases):
